@@ -1,8 +1,11 @@
 """C16 - Wire codecs round-trip, skip unknown parts, and are total (NodeInfo, RotationMessage, Range; the handshake message codec is part of the init suite)."""
 from ..core import Script, hx
 
+from . import _nodecommon
+from .. import nodegen
+
 ID = "C16"
-SUITES = ["codec"]
+SUITES = ["codec", "node"]
 LEAN_MODULES = ["VpnCloud.Proofs.C16", "VpnCloud.Proofs.C16Init"]
 THEOREMS = ["VpnCloud.Proofs.C16." + n for n in ("range_roundtrip", "rotmsg_roundtrip", "partsOf_flatten", "nodeinfo_roundtrip", "unknown_parts_skipped", "decodeParts_fuel", "readU16_lt")] + ["VpnCloud.Proofs.C16Init.initmsg_roundtrip"]
 BATCH = 100
@@ -118,7 +121,7 @@ def py_encode(fields):
     return out
 
 
-def gen(tier, rng):
+def _gen_base(tier, rng):
     thorough = tier == "thorough"
     ops = []
     for _ in range(4000 if thorough else 300):
@@ -173,3 +176,13 @@ def gen(tier, rng):
     rng.shuffle(ops)
     for i in range(0, len(ops), 100):
         yield Script("codec-%d" % (i // 100), ops[i:i + 100], {"suite": "codec"})
+
+
+def gen(tier, rng):
+    for x in _gen_base(tier, rng):
+        yield x
+    # the handshake message decoder on mutated / truncated / length-corrupted genuine datagrams and on forged fields behind a genuine key header (node level, under catch_unwind)
+    yield nodegen.c08_script(rng.fork("node"), "node-handshake-decoder", tier == "thorough")
+
+
+obs_class, nontrivial_key = _nodecommon.with_node(obs_class, nontrivial_key)
